@@ -228,9 +228,20 @@ def check(par, links, names, milestones, sections, clock_off, acc, base_cache, s
             t.gantt_section = sections[i]
     tasks[0].gantt_bar_style = {'fill': 'red'}
     tasks[-1].network_bar_style = {'fill': '#fff'}
+    # a dependency named twice when the list is assigned (two merged lists: [a, b, a]) is still one dependency
+    for t in tasks:
+        ps = list(t.predecessors)
+        if len(ps) >= 2:
+            t.predecessors = [ps[0], ps[1], ps[0]] + ps[2:]
     clock = MON + clock_off
     pages = render_all(w, clock)
-    deps = [(p.id, t.id) for t in tasks for p in t.predecessors]
+    deps = []
+    for t in tasks:
+        seen_p = set()
+        for p in t.predecessors:
+            if id(p) not in seen_p:  # the same task listed twice is one dependency
+                seen_p.add(id(p))
+                deps.append((p.id, t.id))
     res = {}
     for kind in ('gantt', 'network', 'dhtmlx'):
         r = pages[kind]
